@@ -151,7 +151,7 @@ func explore(ld *loaded, u *Unit, tc *TierCfg, seed int64, smtlog string) *UnitR
 	var mu sync.Mutex
 	var wg sync.WaitGroup
 	t1 := time.Now()
-	cfg := &RunCfg{Params: tc.Params, Unwind: tc.Unwind, PBound: tc.PBound, Sched: u.Sched, MaxSteps: 5_000_000, ZZPath: zzPkgPath}
+	cfg := &RunCfg{Params: tc.Params, Unwind: tc.Unwind, PBound: tc.PBound, Sched: u.Sched, MaxSteps: 5_000_000, ZZPath: zzPkgPath, ConcreteClock: u.Clock == "concrete"}
 	if tc.MaxSteps > 0 {
 		cfg.MaxSteps = tc.MaxSteps
 	}
